@@ -89,7 +89,8 @@ def variants(rnd, spec):
     yield "candorder", {"cands": c2, "ballots": bl}, None
     yield "candorder", {"cands": cs[::-1], "ballots": bl}, None
     # (v') no candidate list at all: the profile derives it from the ballots (only comparable when every candidate is cast)
-    cast = {c for b in bl for g in (b.get("r") or []) for c in g} | {c for b in bl for c in (b.get("s") or {})}
+    pos = [b for b in bl if canon.pf(b["w"]) > 0]  # a candidate who is only on zero-weight ballots is not "cast"
+    cast = {c for b in pos for g in (b.get("r") or []) for c in g} | {c for b in pos for c in (b.get("s") or {})}
     if cast == set(cs):
         yield "candsomitted", {"cands": None, "ballots": bl}, None
 
